@@ -60,7 +60,7 @@ def runC05P (toks : List String) : String :=
 def parseFx (s : String) : Fixes :=
   if s = "FX=current" then Fixes.current else
   let has (c : Char) := (s.drop 3).toString.toList.contains c
-  { f4 := has 'a', f23 := has 'b', f22 := has 'c', fzomb := has 'd', fstale := has 'e', f31 := has 'k', fkept := has 'p', fpark := has 'q', fretarget := has 'r', fbottom := has 's' }
+  { f4 := has 'a', f23 := has 'b', f22 := has 'c', fzomb := has 'd', fstale := has 'e', f31 := has 'k', fkept := has 'p', fpark := has 'q', fretarget := has 'r', fbottom := has 's', fblank := has 't' }
 
 /-- `cp:w,cp:w,…`, `-` for the empty text -/
 def parseText (s : String) : Option Text :=
